@@ -146,6 +146,10 @@ def run(run):
             for r1 in rel[: (3 if quick and c not in deep else 12)]:
                 reqs.append("hist " + r1 + ";" + c); kinds.append("after-related")
             reqs.append("hist " + ";".join(rel[:6] + [c])); kinds.append("after-related")
+    # medium-sized compacts, each also directly after a REJECTED compact of another list of that size (scratch space a rejected call
+    # leaves behind must not show in the next answer)
+    from .. import bulk
+    bulk.check_compact(run, bulk.light_compact_requests(run), "compact after a rejected compact")
     impl, model = core.both(run, reqs, "histories", timeout=3600)
     if model[0] != "ok 1":
         run.tie_breaks.append(("model-eval", "memoSphTotalCheck (hypothesis SphTotal of C13.crs_quiet for the float parameters)", model[0]))
